@@ -341,13 +341,16 @@ fn histories_over(run: &Run, st: &mut Stats, menu: &[(&str, usize, Mode)], pats:
                     st.add("evaluations", 1);
                     st.add("validated", 1);
                     st.add("histories", 1);
+                    // a history is non-trivial when at least one of its queries matches (counted once per history)
+                    let mut any_match = false;
                     for (pos, &qi) in hist.iter().enumerate() {
                         let (h, s, m) = menu[qi];
                         let got = match subject::find_n(&re, m, h, s, 16, 10_000_000) {
                             subject::Outcome::Ok(v) => v,
                             _ => vec![SMatch { start: usize::MAX, end: 0, caps: vec![] }],
                         };
-                        if !got.is_empty() {
+                        if !got.is_empty() && !any_match {
+                            any_match = true;
                             st.add("nontrivial", 1);
                         }
                         if got != fresh[qi] {
@@ -395,10 +398,10 @@ fn buffer_reuse_histories(run: &Run, st: &mut Stats) {
                     let up = buf.clone();
                     let r_up: Vec<SMatch> = re.find_iter(&buf).map(|m| SMatch::from(&m)).collect();
                     results.push((up.as_str(), r_up));
+                    if results.iter().any(|(_, r)| !r.is_empty()) {
+                        st.add("nontrivial", 1);
+                    }
                     for (t, r) in &results {
-                        if !r.is_empty() {
-                            st.add("nontrivial", 1);
-                        }
                         if *r != fresh(t) {
                             let case = J::obj().set("kind", J::s("history")).set("pattern", J::s(p)).set("flags", J::s(f)).set("history", J::Arr(vec![J::s(a), J::s(b), J::s(c), J::s("(upper-cased in place)")])).set("what", J::s("a search of a reused buffer returns a result that differs from a fresh Regex on the same text")).set("text", J::s(t)).set("expected", crate::sweep::seq_json(&fresh(t))).set("got", crate::sweep::seq_json(r));
                             st.violation(&run.known, "C19", "result depends on the search history (reused buffer)", p.len(), case);
